@@ -72,7 +72,7 @@ Definition glue_sample (a o : list value) : option verdict :=
   end.
 
 (* ---- histories of rounds ---- *)
-Definition parse_mode (z : Z) : pmode := if z =? 1 then PB else if z =? 2 then PF else PN.
+Definition parse_mode (z : Z) : pmode := if z =? 1 then PB else if z =? 2 then PF else if z =? 3 then PS else PN.
 Fixpoint parse_zss (l : list value) : option (list (list Z)) :=
   match l with
   | [] => Some []
@@ -80,26 +80,47 @@ Fixpoint parse_zss (l : list value) : option (list (list Z)) :=
   | _ => None
   end.
 
-Record round_in := { ri_fps : list Z; ri_d : Z; ri_tape : list Z; ri_mss : list (list pmode); ri_vss : list (list Z) }.
+(* ri_pause: 3 s or more pass before the round; ri_cancel: the round is started with a cancelled context *)
+Record round_in := { ri_fps : list Z; ri_d : Z; ri_tape : list Z; ri_mss : list (list pmode); ri_vss : list (list Z);
+                     ri_pause : bool; ri_cancel : bool }.
+Definition mk_round (f : list Z) (d : Z) (t : list Z) (m vs : list (list Z)) (flags : Z) : round_in :=
+  {| ri_fps := f; ri_d := d; ri_tape := t; ri_mss := map (map parse_mode) m; ri_vss := vs;
+     ri_pause := Z.odd flags; ri_cancel := Z.odd (flags / 2) |}.
+(* [fps d tape modes vals] or [fps d tape modes vals flags] *)
 Definition parse_round (v : value) : option round_in :=
   match v with
-  | VL [VL fps; VZ d; VL tp; VL mss; VL vss] =>
+  | VL (VL fps :: VZ d :: VL tp :: VL mss :: VL vss :: fl) =>
       match getZs fps, getZs tp, parse_zss mss, parse_zss vss with
       | Some f, Some t, Some m, Some vs =>
-          Some {| ri_fps := f; ri_d := d; ri_tape := t; ri_mss := map (map parse_mode) m; ri_vss := vs |}
+          match fl with
+          | [] => Some (mk_round f d t m vs 0)
+          | [VZ flags] => Some (mk_round f d t m vs flags)
+          | _ => None
+          end
       | _, _, _, _ => None
       end
   | _ => None
   end.
 
-(* observed of one client: [hops] resets [request forms] [filter values] post_ilv post_fp *)
-Record cl_obs := { lo_hops : list Z; lo_resets : Z; lo_reqs : list Z; lo_vals : list Z; lo_ilv : Z; lo_fp : Z }.
+(* observed of one client: [hops] resets [request forms] [filter values] post_ilv post_fp [dataplane paths];
+   hops = the next hops its requests reached; dataplane paths = the offered paths whose SCION path (hop fields)
+   its requests carried, named by the next hop of that offered path (a request with an empty SCION path counts
+   for the next hop it reached) *)
+Record cl_obs := { lo_hops : list Z; lo_resets : Z; lo_reqs : list Z; lo_vals : list Z; lo_ilv : Z; lo_fp : Z;
+                   lo_dps : list Z }.
 Definition parse_cl (v : value) : option cl_obs :=
   match v with
-  | VL [VL h; VZ rs; VL rq; VL vs; VZ il; VZ fp] =>
+  | VL (VL h :: VZ rs :: VL rq :: VL vs :: VZ il :: VZ fp :: more) =>
       match getZs h, getZs rq, getZs vs with
       | Some h', Some rq', Some vs' =>
-          Some {| lo_hops := h'; lo_resets := rs; lo_reqs := rq'; lo_vals := vs'; lo_ilv := il; lo_fp := fp |}
+          match more with
+          | [] => Some {| lo_hops := h'; lo_resets := rs; lo_reqs := rq'; lo_vals := vs'; lo_ilv := il; lo_fp := fp; lo_dps := h' |}
+          | [VL dp] => match getZs dp with
+                       | Some dp' => Some {| lo_hops := h'; lo_resets := rs; lo_reqs := rq'; lo_vals := vs'; lo_ilv := il; lo_fp := fp; lo_dps := dp' |}
+                       | None => None
+                       end
+          | _ => None
+          end
       | _, _, _ => None
       end
   | _ => None
@@ -125,12 +146,13 @@ Definition cl_agree (mids : list Z) (hasf : bool) (m : client_obs) (o : cl_obs) 
 Definition idle_obs (s : cstate) (rs : bool) : client_obs :=
   {| co_path := None; co_reset := rs; co_reqs := []; co_vals := []; co_post := if rs then reset_client s else s |}.
 
-Fixpoint mk_cobs (pre : list (bool * Z)) (hasf : list bool) (os : list cl_obs) : list cobs :=
-  match pre, hasf, os with
-  | (il, fp) :: pre', f :: hasf', o :: os' =>
+Fixpoint mk_cobs (pre : list (bool * Z)) (olds : list bool) (hasf : list bool) (os : list cl_obs) : list cobs :=
+  match pre, olds, hasf, os with
+  | (il, fp) :: pre', old :: olds', f :: hasf', o :: os' =>
       {| ob_ilv := il; ob_fp := fp; ob_filter := f; ob_hops := lo_hops o; ob_resets := lo_resets o;
-         ob_first := match lo_reqs o with [] => -1 | x :: _ => x end; ob_vals := lo_vals o |} :: mk_cobs pre' hasf' os'
-  | _, _, _ => []
+         ob_first := match lo_reqs o with [] => -1 | x :: _ => x end; ob_vals := lo_vals o; ob_old := old |}
+      :: mk_cobs pre' olds' hasf' os'
+  | _, _, _, _ => []
   end.
 
 (* the values the clients' filters return: scripted for a client with a filter, the observed raw offsets otherwise *)
@@ -140,14 +162,20 @@ Fixpoint model_vss (hasf : list bool) (vss : list (list Z)) (os : list cl_obs) :
   | _, _ => []
   end.
 
-Record hacc := { h_states : option (list cstate); h_pre : list (bool * Z); h_agree : bool; h_oracle : bool;
+(* h_old: for the oracle, per client: 3 s or more have passed since its last accepted exchange (from the pauses
+   of the history, which are inputs, and the values observed) *)
+Record hacc := { h_states : option (list cstate); h_pre : list (bool * Z); h_old : list bool; h_agree : bool; h_oracle : bool;
                  h_pst : pstate; h_truth : list dpath }.
 
 Definition hfail (a : hacc) : hacc :=
-  {| h_states := None; h_pre := h_pre a; h_agree := false; h_oracle := h_oracle a; h_pst := h_pst a; h_truth := h_truth a |}.
+  {| h_states := None; h_pre := h_pre a; h_old := h_old a; h_agree := false; h_oracle := h_oracle a;
+     h_pst := h_pst a; h_truth := h_truth a |}.
 
 (* one round.  moff: the paths the model offers (identity, fingerprint); truth: the paths the oracle counts as
    available (identity, fingerprint) *)
+Definition no_hops (os : list cl_obs) : bool :=
+  forallb (fun o => match lo_hops o, lo_reqs o with [], [] => true | _, _ => false end) os.
+
 Definition hist_step (hasf : list bool) (a : hacc) (rin : round_in) (moff truth : list dpath) (rob : list value) : hacc :=
   match rob with
   | [VL clv; VZ cls; VZ off; VZ ncons] =>
@@ -155,8 +183,15 @@ Definition hist_step (hasf : list bool) (a : hacc) (rin : round_in) (moff truth 
       | Some os =>
           let mfps := map snd moff in
           let mids := map fst moff in
-          let orc := Nat.eqb (length os) (length (h_pre a))
-                     && C15_pather_round_ok truth (mk_cobs (h_pre a) hasf os) cls off in
+          let olds := if ri_pause rin then map (fun _ => true) (h_old a) else h_old a in
+          (* every request carries the SCION path of the offered path whose next hop it is sent to *)
+          let dp_ok := forallb (fun o => zlist_eqb (lo_dps o) (lo_hops o)) os in
+          let orc := Nat.eqb (length os) (length (h_pre a)) && dp_ok
+                     && (if ri_cancel rin
+                         then (* a cancelled context: outside the property, except that the context's error
+                                 (class 5) means that nobody has probed *)
+                              (if cls =? 5 then no_hops os else true)
+                         else C15_pather_round_ok truth (mk_cobs (h_pre a) olds hasf os) cls off) in
           (* state before the next round, for the oracle: in interleaved mode as the getter says; the path of
              its previous exchange is the one its last accepted exchange was seen on *)
           let pre' := map (fun po : (bool * Z) * cl_obs =>
@@ -167,17 +202,24 @@ Definition hist_step (hasf : list bool) (a : hacc) (rin : round_in) (moff truth 
                                                if i <? 0 then -1 else nth (Z.to_nat i) (map snd truth) (-1)
                               | _, _ => snd (fst po)
                               end)) (combine (h_pre a) os) in
+          let olds' := map (fun oo : bool * cl_obs => match lo_vals (snd oo) with [] => fst oo | _ :: _ => false end)
+                           (combine olds os) in
           let vss := model_vss hasf (ri_vss rin) os in
           let '(st', agr) :=
             match h_states a with
             | None => (None, false)
-            | Some cs =>
-                match run_round mfps cs (ri_d rin) (ri_tape rin) (ri_mss rin) vss with
+            | Some cs0 =>
+                let cs := if ri_pause rin then map age_client cs0 else cs0 in
+                match run_round_c (ri_cancel rin) mfps cs (ri_d rin) (ri_tape rin) (ri_mss rin) vss with
                 | ROk mobs moff' rest =>
+                    if ri_cancel rin then (None, true)    (* the collection is cut at once: anything may be reported *)
+                    else
                     (Some (map co_post mobs),
                      (cls =? 0) && (off =? moff') && (ncons =? consumed (ri_tape rin) rest)
                      && all2 (fun hm o => cl_agree mids (fst hm) (snd hm) o) (combine hasf mobs) os)
                 | RNoMeas mobs rest =>
+                    if ri_cancel rin then (None, true)
+                    else
                     (Some (map co_post mobs),
                      (cls =? 4) && (ncons =? consumed (ri_tape rin) rest)
                      && all2 (fun hm o => cl_agree mids (fst hm) (snd hm) o) (combine hasf mobs) os)
@@ -186,10 +228,15 @@ Definition hist_step (hasf : list bool) (a : hacc) (rin : round_in) (moff truth 
                      (cls =? 1) && (ncons =? consumed (ri_tape rin) rest)
                      && all2 (fun hm o => cl_agree mids (fst hm) (snd hm) o)
                           (combine hasf (map (fun sr : cstate * bool => idle_obs (fst sr) (snd sr)) (combine cs resets))) os)
+                | RErr post resets =>
+                    (Some post,
+                     (cls =? 5)
+                     && all2 (fun hm o => cl_agree mids (fst hm) (snd hm) o)
+                          (combine hasf (map (fun sr : cstate * bool => idle_obs (fst sr) (snd sr)) (combine cs resets))) os)
                 | RFail => (None, false)
                 end
             end in
-          {| h_states := st'; h_pre := pre'; h_agree := h_agree a && agr; h_oracle := h_oracle a && orc;
+          {| h_states := st'; h_pre := pre'; h_old := olds'; h_agree := h_agree a && agr; h_oracle := h_oracle a && orc;
              h_pst := h_pst a; h_truth := h_truth a |}
       | None => hfail a
       end
@@ -219,7 +266,8 @@ Fixpoint parse_cfg (l : list value) : option (list (bool * bool)) :=
 
 Definition hinit (c : list (bool * bool)) : hacc :=
   {| h_states := Some (map (fun eh => fresh_client (fst eh)) c);
-     h_pre := map (fun _ => (false, 0)) c; h_agree := true; h_oracle := true; h_pst := []; h_truth := [] |}.
+     h_pre := map (fun _ => (false, 0)) c; h_old := map (fun _ => false) c; h_agree := true; h_oracle := true;
+     h_pst := []; h_truth := [] |}.
 
 Definition glue_hist (a o : list value) : option verdict :=
   match a, o with
@@ -270,10 +318,10 @@ Fixpoint dpaths_eqb (a b : list dpath) : bool :=
 (* a round of a pather history: [refresh d tape modes vals] with refresh = [] | [liaok [answers]] *)
 Definition pather_step (hasf : list bool) (dstIAs : list Z) (q : Z) (a : hacc) (ri ro : value) : hacc :=
   match ri, ro with
-  | VL [VL rf; VZ d; VL tp; VL mss; VL vss], VL (VL offv :: rob) =>
+  | VL (VL rf :: VZ d :: VL tp :: VL mss :: VL vss :: fl), VL (VL offv :: VZ odd :: rob) =>
       match getZs tp, parse_zss mss, parse_zss vss, parse_offered offv with
       | Some t, Some m, Some vs, Some offered =>
-          let rin := {| ri_fps := []; ri_d := d; ri_tape := t; ri_mss := map (map parse_mode) m; ri_vss := vs |} in
+          let rin := mk_round [] d t m vs (match fl with [VZ flags] => flags | _ => 0 end) in
           let upd := match rf with
                      | [] => Some (h_pst a, h_truth a)
                      | [VZ liaok; VL ans] =>
@@ -287,9 +335,11 @@ Definition pather_step (hasf : list bool) (dstIAs : list Z) (q : Z) (a : hacc) (
           match upd with
           | Some (pst, truth) =>
               let moff := pather_paths pst q in
-              let a1 := {| h_states := h_states a; h_pre := h_pre a;
+              let a1 := {| h_states := h_states a; h_pre := h_pre a; h_old := h_old a;
                            h_agree := h_agree a && dpaths_eqb moff offered;   (* Paths() returned what the model says *)
-                           h_oracle := h_oracle a; h_pst := pst; h_truth := truth |} in
+                           (* every lookup of the refresh came from the local IA and asked for fresh paths
+                              (PathReqFlags{Refresh: true}): odd = number of lookups that did not *)
+                           h_oracle := h_oracle a && (odd =? 0); h_pst := pst; h_truth := truth |} in
               hist_step hasf a1 rin moff truth rob
           | None => hfail a
           end
@@ -326,6 +376,25 @@ Definition glue_race (a o : list value) : option verdict :=
   | _, _ => None
   end.
 
+(* stat.uniform - a statistical TEST, not a proof: counts of N outcomes of the real crypto.Sample / RandIntn on
+   the real crypto/rand, one count per possible outcome (M of them); Pearson's chi-square against the uniform
+   distribution, sum (c_i - N/M)^2 / (N/M) = sum (M c_i - N)^2 / (M N), with the threshold at p = 1e-9 for M - 1
+   degrees of freedom (M = 6: 54, 10: 64, 35: 112): a correct implementation fails once in 10^9 runs *)
+Definition chi_threshold (m : Z) : Z := if m =? 6 then 54 else if m =? 10 then 64 else if m =? 35 then 112 else 0.
+Definition glue_stat (a o : list value) : option verdict :=
+  match a, o with
+  | [VZ what; VZ k; VZ n; VZ total], [VL cv] =>
+      match getZs cv with
+      | Some counts =>
+          let m := Z.of_nat (length counts) in
+          let sum := fold_left Z.add counts 0 in
+          let chi := fold_left (fun acc c => acc + (m * c - total) * (m * c - total)) counts 0 in
+          Some (relational true ((sum =? total) && (0 <? chi_threshold m) && (chi <=? chi_threshold m * m * total)))
+      | None => None
+      end
+  | _, _ => None
+  end.
+
 Definition glue_C15 (k : string) (a o : list value) : option verdict :=
   if is k "rand.intn" then glue_intn a o
   else if is k "rand.sample" then glue_sample a o
@@ -333,6 +402,7 @@ Definition glue_C15 (k : string) (a o : list value) : option verdict :=
   else if is k "mp.pather" then glue_pather a o
   else if is k "mp.pather.dupia" then glue_pather a o
   else if is k "mp.race" then glue_race a o
+  else if is k "stat.uniform" then glue_stat a o
   else None.
 
 Definition run_case (k : string) (a o : list value) : verdict := first_some [glue_C15] k a o.
